@@ -54,6 +54,29 @@ def reals(tier):
         fl = [0.0, -0.0, 0.5, 0.1, 1.0, 2.0 ** 53, 2.0 ** 63, 2.0 ** 64, 5e-324, math.inf, -math.inf]
     for x in fl:
         add(cF(x), lit_float(x))
+    if tier == "thorough":
+        # the neighbourhood of every representation boundary: 2^k + d as a literal (a machine word when it fits) and, for word-sized
+        # values, also in big representation; the floats at and next to 2^k; fractions a hair (2^-200) away from those floats
+        seen = {json.dumps(c) + src for c, src in P}
+
+        def add1(c, src):
+            if json.dumps(c) + src not in seen:
+                seen.add(json.dumps(c) + src)
+                add(c, src)
+        for k in (24, 31, 32, 52, 53, 54, 62, 63, 64, 65, 100, 127, 128, 1023, 1024):
+            for sign in (1, -1):
+                for d in (-2, -1, 0, 1, 2):
+                    v = sign * (2 ** k + d)
+                    add1(cI(v), lit_int(v))
+                    if -2 ** 63 <= v < 2 ** 63 and d in (-1, 0, 1):
+                        add1(cI(v), "((2^70+%d)-2^70)" % v if v >= 0 else "((2^70-%d)-2^70)" % (-v))
+                if k <= 1023:
+                    x = sign * 2.0 ** k
+                    for y in (x, math.nextafter(x, math.inf), math.nextafter(x, -math.inf)):
+                        add1(cF(y), lit_float(y))
+                        if k in (53, 63, 64):
+                            add1(cQ(Fraction(y) + Fraction(1, 2 ** 200)), lit_frac(Fraction(y) + Fraction(1, 2 ** 200)))
+                            add1(cQ(Fraction(y) - Fraction(1, 2 ** 200)), lit_frac(Fraction(y) - Fraction(1, 2 ** 200)))
     # real numbers held at the complex level (zero imaginary part): still compared by exact value with the other levels
     for x, src in ((2.0 ** 53, "(2.0^53 + 0i)"), (0.5, "(0.5 + 0i)"), (1.0, "(1 + 0i)"), (1 / 3, "(1.0/3 + 0i)"), (0.0, "(0.0 + 0i)"), (2.0 ** 64, "(2.0^64 + 0i)")):
         add(["c", cF(x)[1], cF(0.0)[1]], src)
